@@ -209,6 +209,8 @@ func absSchema(s any) any {
 			out["collectionFormat"] = v
 		case k == "allowEmpty":
 			out["allowEmptyValue"] = v
+		case k == "enumCI":
+			out["x-go-enum-ci"] = v
 		default:
 			out[k] = v
 		}
